@@ -451,6 +451,11 @@ impl Property for C06 {
         }
     }
 
+    fn post(&self, tier: Tier, seed: u64, stats: &mut crate::engine::Stats) -> Result<(), (String, String, Vec<u8>)> {
+        // the concurrent phase once more, on free-running threads
+        crate::freerun::free_runs(self, tier, seed, stats)
+    }
+
     fn run(&self, src: &mut Src, rep: &mut Report) -> Verdict {
         let npool = 3 + src.below(5);
         let mut pool: Vec<Coll> = vec![];
@@ -490,6 +495,16 @@ impl Property for C06 {
                     if selfinc {
                         rep.class("self-inconsistent-collector");
                         if r.is_ok() {
+                            // nothing is required of the admission itself, but whatever was admitted is a registered
+                            // collector: it must be possible to unregister it ("unregister succeeds exactly for a
+                            // currently registered collector")
+                            let u = reg.unregister(c.boxed());
+                            ensure!(
+                                u.is_ok(),
+                                "admitted-collector-cannot-be-unregistered",
+                                "step {}: register(#{} {:?}) returned Ok, but unregister of the same collector right afterwards returned {:?}; history: {}",
+                                step, i, specs, u, log.join(" ")
+                            );
                             return Verdict::Discard("self-inconsistent collector accepted");
                         }
                     } else {
@@ -608,7 +623,8 @@ impl Property for C06 {
             rep.class("with-refused-registration");
         }
         rep.nontrivial = nontrivial;
-        if src.chance(30) {
+        let want_concurrent = src.chance(30);
+        if want_concurrent || crate::schedsrc::free_mode() {
             if let v @ Verdict::Fail { .. } = concurrent_phase(src, rep, &pool) {
                 return v;
             }
